@@ -284,8 +284,20 @@ func c12CheckQ(c c12Q, res vsched.Result, obs *c12QObs) (vs []ev.V) {
 		rec := qRecover(obs.spool, sc, 3*time.Hour)
 		for id := range pendingOnDisk {
 			seen := false
+			// a retry is not dispatched before its scheduled time - after a restart either: the next attempt
+			// is due one retry delay (15 min at least) after the *last* attempt of the previous run. Both runs
+			// start their virtual clock at the same instant, so the offsets are comparable.
+			var lastPrev time.Duration = -1
+			for _, e := range h.Events {
+				if e.Msg == id && e.Op == "start" && e.At > lastPrev {
+					lastPrev = e.At
+				}
+			}
 			for _, e := range rec.Events {
 				if e.Msg == id && e.Op == "start" {
+					if !seen && lastPrev >= 0 && e.At < lastPrev+15*time.Minute-time.Second {
+						vs = append(vs, ev.Vf("queue:retry-early-after-restart", "message %s: last attempt of the first run at +%v, first attempt after the restart at +%v, i.e. before the retry delay of 15 min had passed; %s", id, lastPrev, e.At, c01Events(h)))
+					}
 					seen = true
 				}
 			}
@@ -343,9 +355,35 @@ func c02ScenarioKeyQ(sc qScenario) string {
 
 var _ = filepath.Join
 
+// c12RunTiming: "not before its scheduled time", across retries and restarts, on the default schedule: the
+// real queue under synctest with generated fault plans and a restart after k attempts (same virtual clock);
+// two consecutive attempts of a message are never less than one retry delay (15 min) apart.
+func c12RunTiming(sc qScenario) (vs []ev.V) {
+	h := qRun(sc, nil)
+	last := map[string]time.Duration{}
+	for _, e := range h.Events {
+		if e.Op != "start" {
+			continue
+		}
+		if prev, ok := last[e.Msg]; ok && e.At-prev < 15*time.Minute-time.Second {
+			shape := "same-run"
+			if len(sc.RestartAfter) > 0 {
+				shape = "restart-in-history"
+			}
+			vs = append(vs, ev.Vf("queue:retry-before-its-time:"+shape, "message %s: attempt %d started at +%v, only %v after the previous one (retry delay is 15 min at least); restarts after attempts %v; %s", e.Msg, e.Attempt, e.At, e.At-prev, sc.RestartAfter, c01Events(h)))
+			break
+		}
+		last[e.Msg] = e.At
+	}
+	return vs
+}
+
 func TestVerifC12Queue(t *testing.T) {
 	qT = t
 	r := c12Rec
+	ev.Run(t, r, ev.Spec[qScenario]{Name: "retry-timing", N: r.Scale(4, 1, 100), Gen: c01Gen, Run: c12RunTiming, Info: func(sc qScenario) ev.Info {
+		return ev.Info{Nontrivial: len(sc.RestartAfter) > 0 && sc.MaxTries > 2, Classes: []string{fmt.Sprintf("restart=%v", len(sc.RestartAfter) > 0)}}
+	}})
 	ev.Run(t, r, ev.Spec[c12Q]{Name: "queue-scenarios", N: r.Scale(1, 4, 2), Gen: c12GenQ, Run: c12RunQ, Journal: true,
 		Info: func(c c12Q) ev.Info {
 			return ev.Info{Nontrivial: true, Classes: []string{fmt.Sprintf("msgs=%d", len(c.Scenario.Msgs))}}
